@@ -5,7 +5,7 @@ CONSTANTS
   GenesisLen = 1
   Period = 3
   Starts = {2}
-  Timeouts = {5, 8}
+  Timeouts = {8}
   MinActs = {0}
   Thresholds <- Thr12
   Coded = FALSE
